@@ -57,7 +57,7 @@ def strategy():
         deep_len = draw(st.sampled_from([300, 1000, 2040, 2047, 2048, 2049, 3000, 3900]))
         stdin = draw(st.sampled_from(["pty", "pty", "pipe", "closed", "null"]))
         tty_owner = draw(st.sampled_from([0, 1, 1000, 4242, 65534]))
-        envk = draw(st.sampled_from(["small", "small", "empty", "huge", "eqnames"]))
+        envk = draw(st.sampled_from(["small", "small", "empty", "huge", "eqnames", "emptyentries"]))
         v1 = draw(gen.bytes_nonul(0, 30)).replace(SEP, b"_").replace(b"\n", b"_")
         chain = draw(st.lists(gen.ident_bytes(1, 15), min_size=0, max_size=6))
         orphan = draw(st.sampled_from([False, False, False, True]))
@@ -92,6 +92,8 @@ def environ_for(c):
         env = [b"H%d=" % i + b"h" * 100 for i in range(40)]
     elif c["envk"] == "eqnames":
         env = [b"A=B=c", b"=weird", b"NOEQ"]
+    elif c["envk"] == "emptyentries":
+        env = [b"", b"", b"E1=x", b"", b"E2=y"]
     else:
         env = [b"HOME=/root", b"PATH=/bin"]
     env.append(b"V1=" + c["v1"])
@@ -131,7 +133,9 @@ def evaluate(env, c):
     if any(len(l) > 1022 for l in ini.split(b"\n")):
         raise Failure("harness: format line too long", None, key="harness")
     environ = environ_for(c)
-    ops = [drv.op("x", out + "/log"), drv.op("W", "log", out + "/log"), drv.op("C", ini), drv.op("f")]
+    # one call in the ancestor process first: whatever the library caches per process/thread must not survive fork()
+    ops = [drv.op("W", "log", out + "/log"), drv.op("C", ini), drv.op_exec("v", b"/bin/ancestor", [b"ancestor"], [], ret=-1, err=2),
+           drv.op("x", out + "/log"), drv.op("f")]
     if c["host"] is not None:
         ops.append(drv.op("n", c["host"]))
     if c["newsid"]:
